@@ -288,8 +288,8 @@ example : encodeBody (Tape.str "(+PRINT\"X\"") = [0x28, 0xC7, 0xAB, 0x22, 0x58, 
 theorem tokenizer_recursion_bounded (k : Nat) (c : Ctx) (inp : Str) : appendAsTokenFuel (3 + k) c inp = appendAsToken c inp :=
   appendAsToken_fuel_enough k c inp
 
-/-- **C13 (a structurally valid program image — the whole file, read by the independent parser)**: for every listing whose lines all
-    carry a number and hold no NUL character, and whose image ends below address 65536 (the 16-bit address space of the machine:
+/-- **C13 (a structurally valid program image — the whole file, read by the independent parser)**: for every ASCII listing (code points 1..127: beyond ASCII the tool writes UTF-8 bytes, the model one element per code point)
+    whose lines all carry a number, and whose image ends below address 65536 (the 16-bit address space of the machine:
     `programBase` + the file's length), the file `convert` writes is accepted by `Spec.BasicRef.parseProgram` — marker FF, a 16-bit
     length equal to the number of bytes that follow, records whose link pointers advance by each record's size from the program
     base, a final zero link — and its records are, in order, one per source line: the line's number (modulo 65536) and the encoded
@@ -297,25 +297,25 @@ theorem tokenizer_recursion_bounded (k : Nat) (c : Ctx) (inp : Str) : appendAsTo
     none).  Beyond 64 KB the two-byte fields of `convert_shape` wrap: the hypothesis is needed. -/
 theorem convert_is_a_valid_program (text : Str) (parts : List (Nat × Str)) (file : Bytes)
     (hc : convert text = some file) (hp : (readlines text).map extractLineParts = parts.map some)
-    (hnz : ∀ p ∈ parts, ∀ ch ∈ p.2, ch ≠ 0) (hsz : Gen.Tokens.programBase + file.length < 65536) :
+    (hnz : ∀ p ∈ parts, ∀ ch ∈ p.2, ch ≠ 0 ∧ ch < 128) (hsz : Gen.Tokens.programBase + file.length < 65536) :
     BasicRef.parseProgram file = some ⟨recsOf Gen.Tokens.programBase parts⟩ :=
-  parseProgram_convert text parts file hc hp hnz hsz
+  parseProgram_convert text parts file hc hp (fun p hp' ch hch => (hnz p hp' ch hch).1) hsz
 
 /-- the hypotheses are met by an ordinary listing, and the parser does read it back -/
 example : BasicRef.parseProgram ((convert (Tape.str "10 PRINT \"A\"\n20 GOTO 10\n")).getD [])
     = some ⟨recsOf Gen.Tokens.programBase [(10, Tape.str "PRINT \"A\""), (20, Tape.str "GOTO 10")]⟩ := by decide +kernel
 
 
-/-- **C13, structure clause on the listing as it is typed**: lines `N text` (numbers 1..65535, texts without NUL, CR, LF) joined by
+/-- **C13, structure clause on the listing as it is typed**: lines `N text` (numbers 1..65535 — so that `recsOf`'s `N % 65536` is the number typed —, ASCII texts without NUL, CR, LF) joined by
     line feeds, the last with or without one: the converter accepts the listing and, while the image ends below address 65536, the
     file passes the independent structural validator `Spec.BasicRef.parseProgram` with one record per typed line, in order — link
     = address of the next record, the number typed, the encoded text. -/
 theorem typed_listing_is_a_valid_program (finalLF : Bool) (ps : List (Nat × Str))
-    (hn : ∀ p ∈ ps, 0 < p.1) (hch : ∀ p ∈ ps, ∀ c ∈ p.2, c ≠ 0 ∧ c ≠ 10 ∧ c ≠ 13) :
+    (hn : ∀ p ∈ ps, 0 < p.1 ∧ p.1 < 65536) (hch : ∀ p ∈ ps, ∀ c ∈ p.2, c ≠ 0 ∧ c ≠ 10 ∧ c ≠ 13 ∧ c < 128) :
     ∃ file, convert (listingText finalLF ps) = some file ∧
       (Gen.Tokens.programBase + file.length < 65536 →
         BasicRef.parseProgram file = some ⟨recsOf Gen.Tokens.programBase ps⟩) := by
-  have hp := parts_of_listing finalLF ps hn (fun p hp c hc => ⟨(hch p hp c hc).2.1, (hch p hp c hc).2.2⟩)
+  have hp := parts_of_listing finalLF ps (fun p hp => (hn p hp).1) (fun p hp c hc => ⟨(hch p hp c hc).2.1, (hch p hp c hc).2.2.1⟩)
   obtain ⟨bytes, hb⟩ := convertLines_of_parts _ ps Gen.Tokens.programBase hp
   have hconv : convert (listingText finalLF ps) = some ([0xFF] ++ u16 (bytes ++ [0, 0]).length ++ (bytes ++ [0, 0])) := by
     simp only [convert, hb]
@@ -329,8 +329,8 @@ theorem typed_listing_is_a_valid_program (finalLF : Bool) (ps : List (Nat × Str
     `x.bas` beside the listing, same stem as typed, extension `lst` in either letter case — whose bytes are `convert text`: the
     program image of `convert_is_a_valid_program`; a listing with a line that carries no number ends the run with a `ValueError`
     and an empty `x.bas` (`Conv.lst2bas_tokenized_refused`). -/
-theorem cli_writes_the_program_beside_the_listing (w : Str → Option Str) (stem ext text : Str) (file : Bytes)
-    (hext : upper ext = Conv.str "LST") (hw : w (stem ++ 46 :: ext) = some text) (hc : convert text = some file) :
+theorem cli_writes_the_program_beside_the_listing (w : Str → Option Conv.Listing) (stem ext text : Str) (file : Bytes)
+    (hext : upper ext = Conv.str "LST") (hw : w (stem ++ 46 :: ext) = some (.text text)) (hc : convert text = some file) :
     Conv.lst2basOne w (stem ++ 46 :: ext) = { writes := [(stem ++ 46 :: Conv.str "bas", file)] } :=
   Conv.lst2bas_tokenized w stem ext text file hext hw hc
 
